@@ -8,7 +8,7 @@
    far, each with the flag "a waiter took it" (decided by the pending table at
    that moment); [app s] is what the application received from PDU();
    [sending s] the PDU Watch is handing over right now. *)
-From V Require Import Model.Base Model.ConnLTS Model.ConnRun Proofs.ConnBase Proofs.ConnC16.
+From V Require Import Model.Base Model.ConnLTS Model.ConnRun Proofs.ConnBase Proofs.ConnC16 Proofs.ConnFrag.
 Open Scope N_scope.
 
 (* In every reachable state, for any trace, any number of callers:
@@ -61,6 +61,13 @@ Theorem C16_continue : forall v s q rest,
       exists s2, run v s0 t = Some s2 /\ core s1 = core s2 /\ wire_calls (wire s1) = wire_calls (wire s2).
 Proof. exact c16_continue. Qed.
 
+(* All fragmentations of the inbound stream: the item Watch obtains for the
+   octets of a frame (PDU codec model, Model/Pdu.v) is the same however the
+   transport cuts them into Read results — so every theorem above, stated over
+   items, holds for every fragmentation of the same octets. *)
+Theorem C16_fragmentation : forall data cuts1 cuts2, frame_item data cuts1 = frame_item data cuts2.
+Proof. exact frame_item_indep. Qed.
+
 (* Non-vacuity: an outstanding request, two unsolicited PDUs, its response and
    two undecodable frames (sequence 8 and 0) in between. *)
 Example C16_example :
@@ -71,3 +78,4 @@ Proof. exact c16_example. Qed.
 Print Assumptions C16_dispatch.
 Print Assumptions C16_nack.
 Print Assumptions C16_continue.
+Print Assumptions C16_fragmentation.
